@@ -621,6 +621,55 @@ ASSUMPTIONS = {'C04': [
 TRUSTED = {'C04': ['numpy (modelled by pyvc/npmodel.py)']}
 
 
+# ------------------------------------------------------------------ composition of two transformations
+
+def symmetric_matrix(tr):
+    b = tr[3:12]
+    return And(b[1] == b[3], b[2] == b[6], b[5] == b[7])
+
+
+def spec_compose(t1, t2):
+    """t2 o t1 as a 12-tuple in the card layout (o, b1..b9 with B = [[b1,b4,b7],[b2,b5,b8],[b3,b6,b9]])."""
+    B1, B2 = B_of(t1), B_of(t2)
+    o = add(t2[0:3], matvec(B2, t1[0:3]))
+    Bc = [[sum(B2[i][k] * B1[k][j] for k in range(3)) for j in range(3)] for i in range(3)]
+    return list(o) + [Bc[0][0], Bc[1][0], Bc[2][0], Bc[0][1], Bc[1][1], Bc[2][1], Bc[0][2], Bc[1][2], Bc[2][2]]
+
+
+def identity_matrix(tr):
+    b = tr[3:12]
+    return And(*[x == (1 if k in (0, 4, 8) else 0) for k, x in enumerate(b)])
+
+
+def compose_pre(trans1, trans2):
+    """What a caller of compose_transform must establish (see the contract below)."""
+    return Or(identity_matrix(trans2), And(identity_matrix(trans1), symmetric_matrix(trans2)))
+
+
+@contract(TR.compose_transform, props=['C04', 'C05', 'C06'], name='Transformation.compose_transform')
+class _Compose:
+    """compose_transform(t1, t2) is `t1 first, then t2` as a map on points (x -> o + B x, the convention under which
+    surfaces are moved) PROVIDED t2 is a pure translation (which is how develop_lattice calls it), or t1 is a pure
+    translation and the matrix of t2 is symmetric.  The function multiplies the row-major reshapes of the card
+    entries, i.e. the transposes: for two general rotations the result is not the composition, which is why the
+    precondition is an obligation of every caller."""
+    def cases(S):
+        yield 'second-is-a-translation', {'trans1': tr_sym(S, 'p'), 'trans2': S.reals('q1 q2 q3') + [1, 0, 0, 0, 1, 0, 0, 0, 1]}
+        yield 'first-is-a-translation,second-symmetric', {'trans1': S.reals('p1 p2 p3') + [1, 0, 0, 0, 1, 0, 0, 0, 1],
+                                                           'trans2': tr_sym(S, 'q')}
+
+    def ghost(S):
+        return {'r': S.reals('X Y Z')}
+
+    def requires(trans1, trans2, r):
+        return compose_pre(trans1, trans2)
+
+    def ensures(result, trans1, trans2, r):
+        yield 'twelve-entries', len(result) == 12
+        yield 'is-t1-then-t2', And(*[close(a, b) for a, b in zip(image(list(result), r), image(trans2, image(trans1, r)))])
+        yield 'entries-of-the-composition', And(*[close(a, b) for a, b in zip(result, spec_compose(trans1, trans2))])
+
+
 # ------------------------------------------------------------------ matrix completion (3 / 5 entries), adjust_matrix (sampled)
 
 def _rot_sample(S, prefix='q'):
